@@ -627,8 +627,11 @@ func toDeleteNotification(n *pb.Notification, timestamp int64) *pb.Notification 
 	case len(prefix.GetElem()) > 0 || len(path.GetElem()) > 0:
 		// Copy: appending to the stored prefix could write into spare capacity
 		// shared with other notifications that use the same prefix.
-		elem := make([]*pb.PathElem, 0, len(prefix.GetElem())+len(path.GetElem()))
-		elem = append(append(elem, prefix.GetElem()...), path.GetElem()...)
+		// Either part may still use the deprecated element encoding; the leaf is
+		// indexed by both parts, so both must appear in the deleted path.
+		pe, se := pathElems(prefix), pathElems(path)
+		elem := make([]*pb.PathElem, 0, len(pe)+len(se))
+		elem = append(append(elem, pe...), se...)
 		d.Delete = []*pb.Path{{Elem: elem}}
 	default:
 		element := make([]string, 0, len(prefix.GetElement())+len(path.GetElement()))
@@ -636,6 +639,19 @@ func toDeleteNotification(n *pb.Notification, timestamp int64) *pb.Notification 
 		d.Delete = []*pb.Path{{Element: element}}
 	}
 	return d
+}
+
+// pathElems returns the elements of p, converting the deprecated element
+// encoding when p has no elem set.
+func pathElems(p *pb.Path) []*pb.PathElem {
+	if len(p.GetElem()) > 0 || len(p.GetElement()) == 0 {
+		return p.GetElem()
+	}
+	pe := make([]*pb.PathElem, 0, len(p.GetElement()))
+	for _, e := range p.GetElement() {
+		pe = append(pe, &pb.PathElem{Name: e})
+	}
+	return pe
 }
 
 func (t *Target) gnmiRemove(n *pb.Notification) []*ctree.Leaf {
